@@ -297,7 +297,12 @@ int dl_header(CURL *curl, zckDL *dl, char *url, int fail_no_ranges,
 
     if(!zck_read_lead(zck))
         return 0;
-    start = zck_get_lead_length(zck);
+    /* The library goes on reading where the lead read stopped; that is behind
+     * the lead when the lead is shorter than what is read to find it */
+    off_t lead_end = lseek(zck_get_fd(zck), 0, SEEK_CUR);
+    if(lead_end < 0)
+        return 0;
+    start = lead_end;
     if(!dl_bytes(&dl_ctx, url, zck_get_header_length(zck) - start,
                  start, &buffer_len, log_level))
         return 0;
